@@ -84,8 +84,7 @@ def simulate(b, assign, stop_pred):
         bb = ss[0]
 
 
-def r1_spill_table(ck, F):
-    R = "C08-R1"
+def r1_spill_table(ck, F, R="C08-R1"):
     b = F.body(A("sorter_insert"))
 
     def stop(s, c):
@@ -298,9 +297,8 @@ def r5_creator(ck, F):
     ck.ob(R, "no-other-create-site", not others, f"no other library code creates chunks ({others})", config=F.config, nontrivial=False)
 
 
-def r6_plumb(ck, F):
+def r6_plumb(ck, F, R="C08-R6"):
     """the budget-related settings survive build() and chunk_creator() unchanged"""
-    R = "C08-R6"
     sb, so = A("sorter_builder"), A("sorter_struct")
     fields = [f["name"] for f in F.adts[sb]["variants"][0]["fields"]]
     cc = F.body(A("sorter_chunk_creator"))
